@@ -2,6 +2,7 @@ import Driver.Util
 import NutsModel.C05.OneTime
 import NutsModel.C05.Today
 import NutsModel.C05.Forms
+import NutsModel.C05.Vci
 import NutsModel.Facts.C05
 open Lean Nuts.Drv Nuts.C05 Nuts
 
@@ -236,8 +237,45 @@ def formsLine (j : Json) : String :=
   let live := r.2.1.filterMap (fun (k, e) => if alive cfg.expInclusive r.2.2 e.exp then some (k.ns.name ++ "/" ++ k.id) else none)
   s!"forms ans={String.intercalate ";" (r.1.map ansStr)} live=[{String.intercalate "," (live.toArray.qsort (· < ·)).toList}]"
 
+/-! OpenID4VCI request level (Vci.lean): flows and pre-authorized codes issued through the real store functions, token
+    requests at the real handler, served one after the other -/
+
+def parseVForm (i : Nat) (j : Json) : VForm :=
+  if jStr j "t" == "flow" then .flow (jStr j "id") (jStr j "issuer")
+  else if jStr j "t" == "ref" then .ref (jStr j "flow") (jStr j "code")
+  else .token (jStr j "at") (jStr j "code") s!"tok{i}" s!"cn{i}"
+
+def vresStr (r : VRes) : String :=
+  match r.ans with
+  | .ok => if r.flow == "" then "ok" else "200:" ++ r.flow
+  | a => ansStr a
+
+def sortedStrs (l : List String) : String := String.intercalate "," (l.toArray.qsort (· < ·)).toList
+
+def smLive (incl : Bool) (now : Nat) (m : SMap) : List (String × String) :=
+  let rec go : SMap → List String → List (String × String)
+    | [], _ => []
+    | (k, e) :: rest, seen =>
+      if seen.contains k then go rest seen
+      else if alive incl now e.exp then (k, e.val) :: go rest (k :: seen) else go rest (k :: seen)
+  go m []
+
+def vformsLine (j : Json) : String :=
+  let redis := jStr j "backend" == "redis"
+  let cfg := today false (!redis)
+  let reqs := (jArr j "reqs").zipIdx.map (fun (rj, i) => (jNat rj "dt", parseVForm i rj))
+  let r := runVForms cfg.expInclusive cfg.ttl 0 ⟨[], [], [], []⟩ reqs
+  let s := r.2.1
+  let now := r.2.2
+  let codes := s.codes.filterMap (fun (k, e) => if alive cfg.expInclusive now e.exp then some ("code/" ++ k.id ++ "=" ++ e.val) else none)
+  let flows := (smLive cfg.expInclusive now s.flows).map (fun (k, v) => "flow/" ++ k ++ "=" ++ v)
+  let ats := (smLive cfg.expInclusive now s.access).map (·.2)
+  let cn := (smLive cfg.expInclusive now s.cnonce).map (·.2)
+  s!"vforms ans={String.intercalate ";" (r.1.map vresStr)} live=[{sortedStrs (codes ++ flows)}] at=[{sortedStrs ats}] cn=[{sortedStrs cn}]"
+
 def step (u : Unit) (j : Json) : Unit × List String :=
   match jStr j "op" with
+  | "vforms" => (u, [vformsLine j])
   | "forms" => (u, [formsLine j])
   | "run" => (u, [runLine j])
   | "window" => (u, [windowLine j])
